@@ -422,7 +422,11 @@ def run_exe_on_cases(exe, cases, workdir, tag, args=(), timeout=None, env=None, 
             crashes[cur] = (kind, err[-3000:])
         start = cur + 1
         if rounds > 400:
-            raise RuntimeError('too many crashes in one stream (%d); last: %s' % (rounds, err[-1500:]))
+            # the tree is thoroughly broken: stop here, the cases not run are dropped by the caller
+            log('too many crashes in one stream (%d): remaining %d cases not run' % (rounds, n - start))
+            for i in range(start, n):
+                res[i] = ['! notrun']
+            break
     return res, crashes
 
 
@@ -793,6 +797,11 @@ class Check:
                 exhaustive_all = exhaustive_all and st.exhaustive
                 t1 = time.time()
                 impl, crashes = self.run_impl(st.cases, tag='impl_' + st.name)
+                ran = [i for i, o in enumerate(impl) if o != ['! notrun']]
+                if len(ran) < len(st.cases):
+                    st.cases = [st.cases[i] for i in ran]
+                    impl = [impl[i] for i in ran]
+                    crashes = {ran.index(k): v for k, v in crashes.items() if k in ran}
                 model = self.run_model(st.cases, tag='model_' + st.name) if b['model_ok'] else None
                 spec = self.run_spec(st.cases, tag='spec_' + st.name) if (b['model_ok'] and self.has_spec) else [[] for _ in st.cases]
                 nt = 0
